@@ -321,7 +321,7 @@ theorem AncRel.pred {s : LSet} {l1 l2 : List Nat} {b : Nat} (h : Inv s (l1 ++ b 
     simp only [List.concat_eq_append]
     rw [lastOr_append_singleton]
     refine ⟨by simp, ?_⟩
-    simp [List.getElem?_append_left, List.getElem?_append_right]
+    simp
 
 theorem sim_insertBefore {s : LSet} {bs : List Nat} (h : Inv s bs) (a : Nat) (vs : List Nat)
     (d : Dir) (c : Cursor) (hp : c.pos < size s) :
